@@ -120,6 +120,9 @@ def generate(seed, tier):
                 ops.append(rng.choice(["t.leavesUnder %d", "t.subN %d", "t.subE %d"]) % a)
             else:
                 ops += ["t.rootAt %d" % a, "t.valid"]
+        if i % 5 == 0:
+            # setOutGroup on a valid rooted tree (it deletes the root first and cannot succeed: see BppModel/Tree.lean)
+            ops += ["t.valid", "t.setOutGroup %d" % rng.randrange(n), "t.valid"]
         cases.append(["case rnd%d dir" % i] + ops)
     # 3. histories mixing topology edits with validity and structural queries (stale cache must show)
     nhist = 6000 if tier == "thorough" else 1200
@@ -153,8 +156,10 @@ def generate(seed, tier):
                 ops.append("t.deleteNode %d" % a)
             elif r < 0.55:
                 ops.append("t.rootAt %d" % a)
-            elif r < 0.59:
+            elif r < 0.585:
                 ops.append("t.unRoot %d" % rng.randint(0, 1))
+            elif r < 0.59:
+                ops.append("t.setOutGroup %d" % a)
             elif r < 0.64:
                 ops.append("t.setRoot %d" % a)
             elif r < 0.67:
